@@ -11,7 +11,7 @@ sole input as it is.
 """
 import random
 
-from core import imp, run_model, enc_expr, build_expr, enc_str, outcome_of, enc_opt
+from core import imp, run_model, enc_expr, build_expr, enc_str, outcome_of, enc_opt, REPRESENTATIONS
 import algebra
 import gen
 
@@ -73,6 +73,9 @@ def check_tree(tree, L):
         return 'dedup differs from the reference: %s vs %s' % (d, build_expr(want)), got, 'reference'
     if enc_expr(L.dedup(d)) != got:
         return 'dedup is not idempotent', got, 'idempotent'
+    for like in REPRESENTATIONS:
+        if enc_expr(L.dedup(build_expr(tree, like=like))) != got:
+            return 'dedup depends on how the licenses are represented (plain symbol / wrapped user object)', got, 'representation'
     if algebra.same_truth(tree, got) is False:
         key = 'dedup-equal-rendering-different-operands' if collision(tree) else 'truth'
         return 'dedup changed the truth table: %s -> %s' % (e, d), got, key
